@@ -371,7 +371,7 @@ func init() {
 	Register(&Checker{
 		ID: "C04", Level: "exploration", Engine: "A",
 		Rule: "case = (grammar with precedence, K map-order schedules); operator tables (1-6 levels, random associativity, prefix operators via %prec), textbook conflict grammars, random CFGs with random %left/%right/%nonassoc and %prec. For every table cell with exactly two candidate actions (taken from the same run's transitions and lookaheads) the dense-table entry is compared with the documented resolution. distinct_nontrivial = distinct grammars.",
-		NumCases: func(ctx *Ctx) int { return fixedCases(ctx, 1500, 60000) },
+		NumCases: func(ctx *Ctx) int { return fixedCases(ctx, 6000, 60000) },
 		Gen:      genC04, Exec: execC04a,
 		Probes: []string{"probe_sr_by_level", "probe_sr_equal_level_assoc0", "probe_sr_equal_level_assoc1", "probe_sr_equal_level_assoc2", "probe_sr_default_shift", "probe_rr_cell"},
 		Assume: []string{"rule precedence = %prec symbol, else the last right-hand-side terminal; grammars where an earlier terminal has precedence and the last one has none are excluded (yacc and yaccgo differ, the statement does not pin it)", "multi-way cells (>= 3 candidates) and reduce/reduce between two rules that both carry precedence are not judged beyond 'the entry is one of the candidates or error'"},
